@@ -340,17 +340,19 @@ func (m *SimMatcher) MatchVulnerabilities(ctx context.Context, pkgs []*extractor
 	for _, p := range pkgs {
 		names = append(names, p.Name+"@"+p.Version)
 	}
-	if err := m.s.enter("M "+h(names...), true); err != nil {
-		return nil, err
-	}
-	m.mu.Lock()
-	if !m.Seen {
-		m.Seen = true
-		for _, p := range pkgs {
-			m.First = append(m.First, [2]string{p.Name, p.Version})
+	if m.s != nil { // nil = free-running: no synchronisation at all
+		if err := m.s.enter("M "+h(names...), true); err != nil {
+			return nil, err
 		}
+		m.mu.Lock()
+		if !m.Seen {
+			m.Seen = true
+			for _, p := range pkgs {
+				m.First = append(m.First, [2]string{p.Name, p.Version})
+			}
+		}
+		m.mu.Unlock()
 	}
-	m.mu.Unlock()
 	out := make([][]*osvschema.Vulnerability, len(pkgs))
 	for i, p := range pkgs {
 		for j := range m.w.Vulns {
@@ -360,4 +362,67 @@ func (m *SimMatcher) MatchVulnerabilities(ctx context.Context, pkgs []*extractor
 		}
 	}
 	return out, nil
+}
+
+// ---- free-running mode: no scheduler and NO synchronisation inside the stubs ----
+//
+// Mutexes (and atomics) in the stubs order the patch goroutines' memory accesses for the race
+// detector and so hide unsynchronised sharing inside the library.  The frozen client serves the
+// same universe from immutable data, answering exactly as LocalClient does (Versions in
+// LocalClient order, MatchingVersions = resolve.MatchRequirement on a private copy).
+
+type frozenClient struct {
+	vers    map[resolve.PackageKey][]resolve.Version
+	imports map[resolve.VersionKey][]resolve.RequirementVersion
+}
+
+func freeze(lc *resolve.LocalClient) *frozenClient {
+	f := &frozenClient{vers: map[resolve.PackageKey][]resolve.Version{}, imports: map[resolve.VersionKey][]resolve.RequirementVersion{}}
+	for pk, vs := range lc.PackageVersions {
+		f.vers[pk] = append([]resolve.Version(nil), vs...)
+		for _, v := range vs {
+			if rs, err := lc.Requirements(context.Background(), v.VersionKey); err == nil {
+				f.imports[v.VersionKey] = rs
+			}
+		}
+	}
+	return f
+}
+
+func (c *frozenClient) Version(ctx context.Context, vk resolve.VersionKey) (resolve.Version, error) {
+	for _, v := range c.vers[vk.PackageKey] {
+		if v.VersionKey == vk {
+			return v, nil
+		}
+	}
+	return resolve.Version{}, fmt.Errorf("version %v: %w", vk, resolve.ErrNotFound)
+}
+
+func (c *frozenClient) Versions(ctx context.Context, pk resolve.PackageKey) ([]resolve.Version, error) {
+	vs, ok := c.vers[pk]
+	if !ok {
+		return nil, fmt.Errorf("package %v: %w", pk, resolve.ErrNotFound)
+	}
+	return append([]resolve.Version(nil), vs...), nil
+}
+
+func (c *frozenClient) Requirements(ctx context.Context, vk resolve.VersionKey) ([]resolve.RequirementVersion, error) {
+	rs, ok := c.imports[vk]
+	if !ok {
+		return nil, fmt.Errorf("version %v: %w", vk, resolve.ErrNotFound)
+	}
+	out := make([]resolve.RequirementVersion, len(rs))
+	for i, r := range rs {
+		out[i] = r
+		out[i].Type = r.Type.Clone()
+	}
+	return out, nil
+}
+
+func (c *frozenClient) MatchingVersions(ctx context.Context, vk resolve.VersionKey) ([]resolve.Version, error) {
+	vs, ok := c.vers[vk.PackageKey]
+	if !ok {
+		return nil, fmt.Errorf("version: %v: %w", vk, resolve.ErrNotFound)
+	}
+	return resolve.MatchRequirement(vk, append([]resolve.Version(nil), vs...)), nil
 }
